@@ -179,6 +179,8 @@ func (w *World) apply(ds *Doc, op sim.Op, o *Obs) {
 		w.opSave(ds, op, o)
 	case k == "restart":
 		w.opRestart(ds, op, o)
+	case k == "prestart":
+		w.opProcessRestart(op, o)
 	case strings.HasPrefix(k, "t."):
 		w.applyTable(ds, op, o)
 	case strings.HasPrefix(k, "p."):
@@ -309,6 +311,52 @@ func (w *World) opRestart(ds *Doc, op sim.Op, o *Obs) {
 	w.Stats.Probe("restart_doc")
 	for _, ob := range w.Obsv {
 		ob.OnRestart(w, ds)
+	}
+}
+
+// opProcessRestart: save every document, drop everything, reset the
+// process-wide registries (what a fresh process has), open them all again.
+func (w *World) opProcessRestart(op sim.Op, o *Obs) {
+	type saved struct {
+		ds *Doc
+		b  []byte
+	}
+	var all []saved
+	for _, ds := range w.Docs {
+		if ds.Dead {
+			continue
+		}
+		b, err := w.Serialize(ds, op.Int(0))
+		if err != nil {
+			ds.Dead = true
+			continue
+		}
+		ds.Saves++
+		ds.Last = b
+		for _, ob := range w.Obsv {
+			ob.OnSave(w, ds, b)
+		}
+		all = append(all, saved{ds, b})
+	}
+	document.VerifResetProcessState()
+	w.Stats.Probe("restart_process")
+	for _, s := range all {
+		d2, err := w.OpenBytes(s.b, op.Int(1))
+		if err != nil {
+			s.ds.Dead = true
+			o.Res = "open-err"
+			o.Err = err
+			continue
+		}
+		s.ds.D = d2
+		s.ds.Paras, s.ds.Tables, s.ds.Images = nil, nil, nil
+		if d2.Body != nil {
+			s.ds.Paras = append(s.ds.Paras, d2.Body.GetParagraphs()...)
+			s.ds.Tables = append(s.ds.Tables, d2.Body.GetTables()...)
+		}
+		for _, ob := range w.Obsv {
+			ob.OnRestart(w, s.ds)
+		}
 	}
 }
 
